@@ -214,6 +214,24 @@ PROPS = {
              "through OptionalField.DoWrite (page parsed by pqref) and OptionalField.DoRead (page built by pqref) for definition and repetition levels. "
              "Non-trivial: a stream with both run kinds, a bit-packed run >= 63 groups, or a multi-byte run header (S2/S3); length >= 8 (S1); distinct by case hash / enumeration index. 'exhaustive' refers to S1.",
     ),
+    "C04": dict(
+        level="exploration",
+        technique="property-based testing (rapid): one logical content x many legal physical encodings produced by an independent writer; differential against the logical content",
+        level_text="Exploration: the generated reader is fed files that the library's own writer never produces (arbitrary run segmentation of levels, independent page splits per column, "
+                   "per-column codecs, hand-rolled snappy streams, optional thrift fields present/absent, non-zero padding bits); it must return the logical content.",
+        level_note="Trusted: pqref's foreign writer; every foreign file is first validated by pqref's own walker and reassembled by the reference assembler (failure => exit 2, not a violation). "
+                   "Layout limits of the documented subset are respected: v1 data pages, PLAIN, chunks contiguous from byte 4 in schema order.",
+        fixtures=["flat24", "nest", "tiny"],
+        gen_anchored=True,
+        stages=[dict(test="TestC04", kind="rapid", quick=2400, thorough=48000)],
+        replay="TestReplayC04",
+        rule="rapid: 1..3 row groups of 1..120 records on flat24/nest/tiny (lists up to 700 so that pages exceed 504 entries), written by pqref.WriteFile with, per column chunk: "
+             "codec (file-wide or mixed per column), page cuts at drawn record boundaries (independent per column), per page a drawn legal segmentation of rep and def level streams "
+             "(RLE runs of any length >= 1, bit-packed runs of any group count incl. > 63, drawn padding value), statistics mode 0..3, snappy body from golang/snappy / literal-only / naive copies, "
+             "optional crc; footer extras (created_by, key/value metadata, column_orders, RowGroup fields 5..7, field_id, column key/value, encoding_stats, column statistics, legacy BIT_PACKED labels "
+             "on absent level streams) present/absent. Oracle: generated reader returns the logical content with Error()==nil and Rows() right. Non-trivial: a bit-packed run > 63 groups, an RLE "
+             "run whose length is not a multiple of 8, page splits that differ between two columns, mixed codecs, or a hand-rolled snappy body; distinct by case hash.",
+    ),
 }
 
 
